@@ -217,12 +217,13 @@ func travExplore(t *testing.T, prop string) {
 	defer w.Finish()
 	w.SetRule("stateless DFS over scheduler choices of the real traversal.Operation (sync, anacrolix/sync and chansync imports rewritten to scheduler shims by a build-time overlay; Points before every mutex Lock, BroadcastCond.Signaled/Broadcast, SetOnce.Set, at the return of every DoQuery and at harness API calls AddNodes/Stop; mutex ownership modelled) with iterative preemption bounding plus a bounded number of freely placed stall polls; fine tier: designed scenarios (chain, fill race, duplicate IDs, data filter, node filter, late AddNodes, one address under several IDs, repeated addresses, silent peers with Stop); coarse tier: every response graph on 3 peers + seed with at most one silent or lying peer, all completion orders of the in-flight queries")
 	// fine tier A: state-pruned DFS at Point granularity, one unit per scenario. quick: at most 1
-	// preemption (non-preemptive switches and stall polls are free); thorough: unbounded.
+	// preemption (non-preemptive switches and stall polls are free); thorough: 2 preemptions, then
+	// tier A2 below removes the bound.
 	idx := 0
 	scns := travScenarios()
 	pb := 1
 	if w.Thorough() {
-		pb = -1
+		pb = 2
 	}
 	w.Bound("pruned_preemption_bound", pb)
 	fineDeadline := w.Remaining() * 6 / 10
@@ -245,6 +246,36 @@ func travExplore(t *testing.T, prop string) {
 		d.Explore()
 		w.Note(fmt.Sprintf("%s: %d executions, %d distinct states expanded, %d prunings, max %d scheduling points", unit, d.Executions, d.States, d.Pruned, d.MaxPoints))
 		w.Flush(false)
+	}
+	// fine tier A2 (thorough): no preemption bound at all; every shard works on the same scenario
+	// (first-level subtrees are dealt out, each shard prunes with its own visited set) inside a time
+	// slice per scenario, so that the large scenarios get all cores
+	if w.Thorough() {
+		slice := w.Remaining() * 5 / 10 / time.Duration(len(scns))
+		for _, scn := range scns {
+			scn := scn
+			i := idx
+			idx++
+			if i < w.SkipTo() {
+				continue
+			}
+			if w.OutOfTime() {
+				w.Cap(fmt.Sprintf("time budget hit before scenario %s (pruned, unbounded)", scn.Name))
+				continue
+			}
+			unit := fmt.Sprintf("scn=%s;mode=sync;b=inf;pruned", scn.Name)
+			w.BeginUnit(i, unit)
+			d := &explore.DFS{W: w, Unit: unit, Preempt: -1, Observe: scn.Polls, DetCheck: 0, Prune: true, ShardTop: true,
+				Deadline: time.Now().Add(slice),
+				Run:      func(prefix []int) explore.Exec { return travRun(t, prop, scn, false, prefix) }}
+			d.Explore()
+			done := "complete"
+			if d.TimedOut {
+				done = "NOT complete within its time slice"
+			}
+			w.Note(fmt.Sprintf("%s: shard %d: %d executions, %d states expanded, %d prunings: %s", unit, w.ShardI, d.Executions, d.States, d.Pruned, done))
+			w.Flush(false)
+		}
 	}
 	// fine tier B: no pruning (no reliance on the state key), iterative preemption bounding on the
 	// two smallest scenarios, sharded by first-level subtree
